@@ -12,6 +12,12 @@ MODULES = ["RuschmProofs.C08", "RuschmProofs.C08Types", "RuschmProofs.BuiltinTab
 
 
 ORDER_PROBES = [
+    (["(define e 0)", "(define v (vector 0 0))", "(define (f g) (g (set! e 1) (vector-set! v 1 7)))", "(f 5)", "e", "v"],
+     ["N", "N", "N", "E nonProcedure", "V i:1", "V #m(i:0 i:7)"]),
+    (["(define e 0)", "(define (f g) (if #t (g (begin (set! e (+ e 1)) 1)) 0))", "(f 5)", "(apply f '(6))", "(for-each f '(7))", "e"],
+     ["N", "N", "E nonProcedure", "E nonProcedure", "E nonProcedure", "V i:3"]),
+    (["(define e 0)", "(define (f) ((car (list 5)) (set! e 9)))", "(f)", "e", "(define (h) (car (begin (set! e 10) 5)))", "(h)", "e"],
+     ["N", "N", "E nonProcedure", "V i:9", "N", "E type", "V i:10"]),
     (["(define e 0)", "(set! nope-zz (begin (set! e (+ e 1)) e))", "e"], ["N", "E unbound", "V i:1"]),
     (["(define e 0)", "(define (f) (set! nope-zz (begin (set! e (+ e 1)) e)))", "(f)", "(apply f '())", "(for-each (lambda (q) (f)) '(1))", "e"],
      ["N", "N", "E unbound", "E unbound", "E unbound", "V i:3"]),
